@@ -213,6 +213,8 @@ int main(int argc, char **argv)
         for(char t : ts) if(ref::has_data(t)) {
             ref::Arg a; a.type = t; a.u32 = 0x01020304u; a.u64 = 0x0102030405060708ull; a.m[0] = 0x90; a.m[1] = 0x40; a.m[2] = 0x7f;
             a.s = (args.size() % 2) ? "abc" : "ab"; a.b = {1, 2, 3}; a.b_len = 3; if(args.size() % 2) { a.b = {9, 8, 7, 6, 5}; a.b_len = 5; }
+            // second variant of the family (address lengths 3 and 4): strings and blobs that span more than one word
+            if(al >= 3) { a.s = (args.size() % 2) ? "abcdefgh" : "abcde"; a.b = {1, 2, 3, 4, 5, 6, 7, 8, 9}; a.b_len = 9; if(args.size() % 2) { a.b = {9, 8, 7, 6}; a.b_len = 4; } }
             args.push_back(a);
         }
         std::string base = ref::encode(gen::address(al), ts, args);
